@@ -121,9 +121,14 @@ def generate() -> str:
                         F["dtypeArg"] = '(.max (.var "pmax") (.var "rmax"))' if names == want and len(want) == 2 else f"(.other {lean_str(src(a))})"
                     F["_dtype_name"] = tg.id
                     continue
-            if isinstance(st, ast.If) and bvar and src(st.test) == f"{bvar} is None" and len(st.body) == 1 and not st.orelse \
-                    and isinstance(st.body[0], ast.Assign) and src(st.body[0].targets[0]) == bvar:
-                F["usesGiven"] = "true" if default_choice(st.body[0].value) else "false"
+            if isinstance(st, ast.If) and bvar and src(st.test) == f"{bvar} is None" and len(st.body) == 1 and not st.orelse:
+                inner = st.body[0]
+                if isinstance(inner, ast.Assign) and src(inner.targets[0]) == bvar:
+                    F["usesGiven"] = "true" if default_choice(inner.value) else "false"
+                elif isinstance(inner, ast.If) and len(inner.body) == 1 and len(inner.orelse) == 1 \
+                        and all(isinstance(x, ast.Assign) and src(x.targets[0]) == bvar for x in (inner.body[0], inner.orelse[0])):
+                    # the same choice written as a statement
+                    F["usesGiven"] = "true" if default_choice(ast.IfExp(test=inner.test, body=inner.body[0].value, orelse=inner.orelse[0].value)) else "false"
                 continue
             if isinstance(st, ast.Return) and isinstance(st.value, ast.Call) and src(st.value.func) == "UnmatchedInstancePair":
                 kw = {k.arg: src(k.value) for k in st.value.keywords}
